@@ -117,6 +117,78 @@ def case_linear(case):
     return {"v": v[:8], "nt": True, "n": cnt[0], "obs": {"worst_rel_err": worst[0]}}
 
 
+def repr_cases(tier):
+    for p, h, fp, an in itertools.product(("const", "most_aniso"), (0.0, 13.0), (False, True), (False, True)):
+        if an and p != "const":
+            continue
+        yield {"prof": p, "halo": h, "footprint": fp, "analytic": an}
+
+
+def case_representation(case):
+    """The same float64 surface-flux field in another memory layout (Fortran order, strided view, read-only) gives the
+    same fields; in footprint mode arrays of any dtype do (values must not matter)."""
+    S0 = sl.solver()
+    nx, ny, dom = 8, 6, (80.0, 90.0)
+    z, prof = sl.build_profiles(case["prof"], 4)
+    # values exactly representable in float32, so that a float32 copy carries the same numbers
+    z = np.round(z * 64) / 64
+    prof = tuple(np.round(p * 64) / 64 + (0.0 if k < 2 else 1.0 / 64) for k, p in enumerate(prof))
+    q = (np.arange(ny * nx).reshape(ny, nx) % 7 - 2).astype(float)  # small integers, sign-changing
+    levels = [1, 4]
+    base_kw = dict(z=z, profiles=prof, domain=dom, levels=levels, modes=(8, 6), meas_pt=(20.0, 30.0) if case["footprint"] else (0.0, 0.0), srf_bg_conc=2.0,
+                   footprint=case["footprint"], analytic=case["analytic"], halo=case["halo"], precision="double")
+    _, c0, f0 = S0(q, **base_kw)
+    ref = np.stack([c0, f0])
+    sc = max(np.abs(ref).max(), 1e-300)
+    v = []
+    n = 1
+    big = np.zeros((2 * ny, 2 * nx))
+    big[::2, ::2] = q
+    ro = q.copy()
+    ro.setflags(write=False)
+    zz = np.zeros(2 * len(z))
+    zz[::2] = z
+    # Only representations the property's wording covers: the SAME float64 field in another memory layout (any
+    # surface-flux field is an ndarray of float, however it is laid out), and - in footprint mode, where values must
+    # not matter at all - arrays of other dtypes.  (On the unchanged tree a float32 source or a strided z raise a numba
+    # TypingError in the numerical mode; no property promises those, so they are not judged here.)
+    variants = {
+        "source Fortran order": dict(srf_flx=np.asfortranarray(q)),
+        "source strided view": dict(srf_flx=big[::2, ::2]),
+        "source read-only": dict(srf_flx=ro),
+    }
+    if case["footprint"]:
+        variants.update({
+            "source int64": dict(srf_flx=q.astype(np.int64)),
+            "source int32": dict(srf_flx=q.astype(np.int32)),
+            "source float32": dict(srf_flx=q.astype(np.float32)),
+            "source bool": dict(srf_flx=q > 0),
+        })
+    for name, ch in variants.items():
+        kw = dict(base_kw)
+        srf = ch.pop("srf_flx", q)
+        kw.update(ch)
+        try:
+            _, c, f = S0(srf, **kw)
+        except Exception as e:
+            v.append({"sub": "representation", "sig": "representation/raises/%s" % name.split()[0], "msg": "%s: the call raises %s: %s; config %s" % (name, type(e).__name__, str(e)[:150], core.canon(case))})
+            continue
+        n += 1
+        got = np.stack([np.asarray(c, dtype=float), np.asarray(f, dtype=float)])
+        e = sl.relerr(got, ref, sc)
+        if not e <= 1e-12:
+            v.append({"sub": "representation", "sig": "representation/%s" % name.split()[0], "msg": "%s: result differs from the float64 / tuple / C-contiguous call with the same numbers by %.2e of the field maximum; config %s" % (name, e, core.canon(case))})
+    if not np.array_equal(ro, q):
+        v.append({"sub": "representation", "sig": "representation/input-modified", "msg": "input array modified"})
+    return {"v": v[:8], "nt": n, "key": core.canon(case), "n": n}
+
+
+def _ro(a):
+    a = a.copy()
+    a.setflags(write=False)
+    return a
+
+
 def run(ctx):
     os.environ["VERIF_SEED"] = str(ctx.seed)
     core.warm_numba()
@@ -126,3 +198,4 @@ def run(ctx):
         "coefficient pairs, 3 fields x 3 backgrounds, 5 source fillings in footprint mode; all configurations are distinct lattice points (non-trivial); evaluations counts solver executions"
     )
     ctx.run_cases(case_linear, configs(ctx.tier), sub="linearity", chunksize=1)
+    ctx.run_cases(case_representation, repr_cases(ctx.tier), sub="argument-representation", chunksize=1)
